@@ -407,6 +407,12 @@ async fn fabitn(
     let lprime = l + three_rho;
     let mut x: Vec<bool> = (0..lprime).map(|_| random()).collect();
     debug!("Generated local bitstring x of length {}", lprime);
+    #[cfg(feature = "__verif")]
+    crate::verif::probe(
+        "fabitn.x",
+        i,
+        &x.iter().map(|b| *b as u8).collect::<Vec<u8>>(),
+    );
 
     // Steps 2) Use the output of the oblivious transfers between each pair of parties to generate keys and macs.
     let deltas = vec![Block::from(delta.0.to_be_bytes()); lprime];
